@@ -269,6 +269,66 @@ def printer_part(chk: Check, drv: Driver, prepared):
             chk.unproved_obligation("correspondence:ir_to_c_statement", "model and code print a kernel body differently",
                                     pr.case(model=str(rep)[:400], code=want[:400]))
     chk.corr("ir_to_c_statement", len(reqs), mism)
+    # statement printer off the kernels' beaten track: compound-assignment sugar in every position,
+    # declarations of every type, else-if chains, empty blocks, comments, allocation statements
+    from tensora.ir import ast as ir
+    from tensora.ir import types
+
+    from .c07 import statements
+
+    stmts = statements(rng, ints + i1[:60], floats + f1[:60], bools + b1[:60], 300 if chk.tier == "quick" else 3000)
+    targets = [ir.Variable("i"), ir.Variable("x"), ir.ArrayIndex(ir.Variable("A"), ir.Variable("i")),
+               ir.AttributeAccess(ir.Variable("t"), "vals"), ir.ArrayIndex(ir.Variable("A"), ir.Add(ir.Variable("i"), ir.IntegerLiteral(1)))]
+    others = [ir.Variable("j"), ir.IntegerLiteral(1), ir.IntegerLiteral(2), ir.FloatLiteral(1.0), ir.Add(ir.Variable("i"), ir.IntegerLiteral(1)),
+              ir.Multiply(ir.Variable("j"), ir.Variable("k")), ir.Subtract(ir.Variable("j"), ir.IntegerLiteral(1))]
+    for t in targets:
+        for cls in (ir.Add, ir.Subtract, ir.Multiply):
+            for o in others + targets:
+                stmts.append(ir.Assignment(t, cls(t, o)))
+                stmts.append(ir.Assignment(t, cls(o, t)))
+                stmts.append(ir.Assignment(t, cls(o, ir.IntegerLiteral(1))))
+                stmts.append(ir.Assignment(t, cls(o, o)))
+    all_types = [types.boolean, types.integer, types.float, types.tensor, types.mode]
+    all_types += [types.Pointer(x) for x in all_types] + [types.Pointer(types.Pointer(types.integer)), types.Array(types.integer),
+                                                            types.Array(types.Pointer(types.float)), types.FixedArray(types.integer, 3),
+                                                            types.Pointer(types.Array(types.float)), types.FixedArray(types.Pointer(types.mode), 2)]
+    for ty in all_types:
+        stmts.append(ir.Declaration(ir.Variable("v"), ty))
+    for ty in (types.integer, types.float):
+        stmts.append(ir.Assignment(ir.Variable("A"), ir.ArrayAllocate(ty, ir.Add(ir.Variable("n"), ir.IntegerLiteral(1)))))
+        stmts.append(ir.Assignment(ir.Variable("A"), ir.ArrayReallocate(ir.Variable("A"), ty, ir.Multiply(ir.Variable("n"), ir.IntegerLiteral(2)))))
+        stmts.append(ir.DeclarationAssignment(ir.Declaration(ir.Variable("B"), types.Pointer(ty)), ir.ArrayAllocate(ty, ir.Variable("n"))))
+    c1, c2, c3 = ir.LessThan(ir.Variable("i"), ir.Variable("n")), ir.Equal(ir.Variable("i"), ir.IntegerLiteral(0)), ir.BooleanLiteral(True)
+    s1, s2 = ir.Assignment(ir.Variable("i"), ir.Add(ir.Variable("i"), ir.IntegerLiteral(1))), ir.Return(ir.IntegerLiteral(0))
+    stmts += [ir.Branch(c1, s1, ir.Branch(c2, s2, ir.Branch(c3, s1, ir.Block([])))), ir.Branch(c1, ir.Block([s1]), ir.Branch(c2, ir.Block([s2]), ir.Block([s1]))),
+              ir.Branch(c1, ir.Block([]), ir.Block([], "else comment")), ir.Branch(c1, ir.Block([], "c"), ir.Block([])),
+              ir.Block([ir.Block([s1], "inner"), s2, ir.Block([]), ir.Block([s1]), s1], "outer"), ir.Block([s1, ir.Block([s2]), ir.Block([s1], "x")]),
+              ir.Loop(c1, ir.Block([ir.Branch(c2, s1, ir.Block([])), ir.Loop(c3, ir.Block([]))]))]
+    reps = drv.batch(["CPRINTS " + sx(export(st)) + " " + sx(float_reprs(st)) for st in stmts])
+    mism = 0
+    for st, rep in zip(stmts, reps):
+        try:
+            want = "\n".join(ir_to_c_statement(st))
+        except Exception as e:  # noqa: BLE001
+            want = f"<raised {type(e).__name__}>"
+        if rep != want:
+            mism += 1
+            chk.unproved_obligation("correspondence:ir_to_c_statement", f"model {str(rep)[:200]!r} vs code {want[:200]!r}", {"tree": sx(export(st))[:600]})
+    chk.corr("ir_to_c_statement(typed trees)", len(stmts), mism)
+    # whole modules: function headers, parameter lists, blank lines between functions — the text
+    # generate_code(..., Language.c) and the CLI return
+    from tensora.codegen import ir_to_c
+
+    reqs, wants = [], []
+    for pr in prepared:
+        reqs.append("CPRINTM " + sx(export(pr.module)) + " " + sx(float_reprs(pr.module)))
+        wants.append((ir_to_c(pr.module), pr))
+    mism = 0
+    for (want, pr), rep in zip(wants, drv.batch(reqs)):
+        if rep != want:
+            mism += 1
+            chk.unproved_obligation("correspondence:ir_to_c(module)", "model and code print a module differently", pr.case(model=str(rep)[:300], code=want[:300]))
+    chk.corr("ir_to_c(module)", len(reqs), mism)
 
 
 def replay(chk: Check, drv: Driver, path: str):
